@@ -8,11 +8,12 @@ NOT_APPLICABLE = {}
 
 CHECKS = {
     "C13": {
-        "technique": "exhaustive parameter sweep + Hypothesis-drawn larger tuples against brute-force enumerators (bijection and count oracle)",
+        "technique": "exhaustive parameter sweep + Hypothesis-drawn larger tuples (index spaces beyond 2^64, runs of consecutive indices) against brute-force enumerators (bijection and count oracle)",
         "text": ("Every unranking function of combinatorics.py is run on ALL indices of every parameter tuple inside the tier's bound "
                  "(exhaustive within that bound, both PermutationMemo regimes) and compared with a brute-force enumeration written "
                  "independently: images distinct, legal, onto, count equal to the counting function. Hypothesis adds larger tuples "
-                 "(incl. the q>=100 / first_n>=100 dispatch) with full or sampled index sets against an independent DP count. "
+                 "(incl. the q>=100 / first_n>=100 dispatch and sequences of up to 90 positions, i.e. index spaces far beyond 2^64) with full index sets or runs of "
+                 "consecutive indices (around 2^31, 2^53, 2^64, both ends) against an independent DP count. "
                  "Exhaustive inside the bound, sampled beyond it; this is the right level because the functions are pure and the space of small tuples is finite."),
         "note": "trusts the brute-force enumerators and DP count in vp/props/c13.py (they are cross-checked against each other); indices outside 0..N-1 are not part of the property",
     },
@@ -39,12 +40,14 @@ CHECKS = {
         "note": "operands of equal width and width <= saturate_at, as at every call site; low bits of a saturated result are not judged",
     },
     "C27": {
-        "technique": "Hypothesis clause-set/solution generator; strict DIMACS parser written from the format as round-trip oracle; recording stand-in for the solver; brute-force projected models for the iterate loop",
+        "technique": "Hypothesis clause-set/solution generator and the design generator; strict DIMACS parser written from the format as round-trip oracle; recording stand-ins for pycryptosat/pycmsgen/pyunigen; brute-force projected models for the iterate loop and the real samplers; files captured from real sampler runs on generated blocks",
         "text": ("For generated clause sets (gaps, repeated literals, support sizes across the 10-per-line boundary, optional cardinality request) the file "
                  "the library writes is re-read by an independent strict parser: header counts, clause multiset, c ind lines; parse_cnf_file and the "
                  "pycryptosat reader must recover the same; scripted solver assignments must round-trip through cryptominisat_solve, build_solution and "
                  "sample_uniform; update_file must add exactly the negated support assignment (truth-table check) and sample_non_uniform's loop must return "
-                 "exactly the brute-force projected models. Sampled."),
+                 "exactly the brute-force projected models; the pycmsgen / pyunigen wrappers must hand the file's clauses and sampling set to the sampler and spell its "
+                 "assignment, and the real CMSGen/UniGen samplers must return projected models on small formulas. Design level: for generated blocks the file at every "
+                 "IterateSATGen iteration and at the CMSGen/UniGen call is captured and judged the same way against build_cnf(block). Sampled."),
         "note": "support variables are 1..support and all occur in the formula; non-empty clauses; the external solvers themselves are trusted",
     },
     "C28": {
@@ -62,7 +65,7 @@ CHECKS.update({
         "text": ("Generated designs (basic/derived factors with within/transition/window derivations, weights, all constraint kinds, CrossBlock) are compiled "
                  "with build_cnf; for up to 200 (thorough 1500) projected models of the trial-sequence variables the remaining variables of the formula must "
                  "admit exactly one extension. Sampled designs; per design the checked models are spread over all enumerated ones."),
-        "note": "trusts pycryptosat; designs with a Window start earlier than the default are excluded (known finding F12); flat CrossBlock designs only in this revision",
+        "note": "trusts pycryptosat; designs with a Window start earlier than the default are excluded (known finding F12); all block kinds (CrossBlock, MultiCrossBlock, Repeat, Merge, Nest) and constructed feature-interaction scenarios are generated",
     },
     "C07": {
         "technique": "Hypothesis design-spec generator; differential exhaustion IterateSATGen (formula models + the real iterate loop) vs RandomGen, compared as sets of level-name sequences",
@@ -82,7 +85,7 @@ CHECKS.update({
         "text": ("For generated designs all applicable (trial, factor, level) triples (applicability from the documented start/stride rule) must map injectively onto "
                  "1..variables_per_sample, support variables lie inside that range, and Gen.decode of six generated one-hot assignments per design returns exactly the "
                  "chosen names with '' where a factor does not apply. Sampled."),
-        "note": "flat CrossBlock designs in this revision (sustained factors of Nest are not generated yet)",
+        "note": "applicability from the documented start/stride rule (vp/ref.py); all block kinds incl. sustained factors of Nest; designs beyond the tier's trial bound are discarded and counted",
     },
     "C20": {
         "technique": "Hypothesis generator of blocks with arbitrary level-name values and of arbitrary well-formed experiments; round-trip through experiments_to_tuples/dicts and csv.reader",
@@ -99,8 +102,8 @@ CHECKS.update({
     },
 })
 
-REFNOTE = ("trusts vp/ref.py (independent reference of the documented semantics, self-tested on every run against 21 designs with the maintainers' "
-           "expected counts); designs whose documented meaning is ambiguous are discarded and counted per reason; flat CrossBlock designs in this revision; ")
+REFNOTE = ("trusts vp/ref.py (independent reference of the documented semantics, self-tested on every run against 26 designs with the maintainers' "
+           "expected counts); designs whose documented meaning is ambiguous are discarded and counted per reason; CrossBlock, MultiCrossBlock, Repeat, Merge and Nest designs plus constructed feature-interaction scenarios; ")
 CHECKS.update({
     "C01": {
         "technique": "Hypothesis design-spec generator; reference validity predicate applied to every model of the compiled formula (capped) and to everything IterateSATGen, CMSGen, UniGen, IterateGen/UniformGen return",
@@ -157,7 +160,7 @@ CHECKS.update({
         "text": ("Each weighted basic factor is rewritten into w separately named copies plus a within-trial factor reporting the original name; exhausted through the compiled formula, the "
                  "projection of the twin must equal the weighted design as a set (crossed: and no multiplicities) or as a multiset (outside the crossing); the reference multiset is "
                  "compared where unambiguous. Sampled designs, exhaustive per design."),
-        "note": "weights on derived levels and Sequential/LatinSquare over weighted factors are outside the property text / ambiguous and excluded; flat CrossBlock designs in this revision",
+        "note": "weights on derived levels and Sequential/LatinSquare over weighted factors are outside the property text / ambiguous and excluded; weighted derived levels are compared with the reference only",
     },
     "C24": {
         "technique": "Hypothesis generator of (law, left block tree); right side derived by the documented equivalence; differential comparison of acceptance, trial count and exhausted multisets",
